@@ -99,6 +99,7 @@ class Kernel(object):
         self.io = []                # (seq, task, kind, endpoint, bytes): transport history
         self.registry = {}          # free-form: ports, listeners ... used by seams
         self._last_task = None
+        self.spawning = False
 
     # ------------------------------------------------------------------ log
     def log(self, kind, *payload):
@@ -167,7 +168,11 @@ class Kernel(object):
         th.daemon = True
         t.thread = th
         t.state = RUNNABLE
-        th.start()
+        self.spawning = True        # the one legitimate thread start: tell the tripwire
+        try:
+            th.start()
+        finally:
+            self.spawning = False
         self.log('spawn', name)
         return t
 
